@@ -166,6 +166,10 @@ impl BuiltInFunction {
                     unreachable!()
                 };
 
+                if v.0.borrow().is_empty() {
+                    return Ok((Some(vector!(raw vec![])), None));
+                }
+
                 #[derive(Debug)]
                 struct MapOp {
                     callback_path: String,
@@ -243,6 +247,10 @@ impl BuiltInFunction {
                 let Some(Primitive::Vector(v)) = arguments.first() else {
                     unreachable!()
                 };
+
+                if v.0.borrow().is_empty() {
+                    return Ok((Some(vector!(raw vec![])), None));
+                }
 
                 #[derive(Debug)]
                 struct FilterOp {
